@@ -17,6 +17,8 @@ type BuilderView struct {
 	Fields  []string // field names of the built struct (for paths)
 	// RefFields: field name -> name of the object of the same package it refers to
 	RefFields map[string]string
+	// ScalarFields: field name -> scalar kind, for plain (unconstrained, non-constant) scalar fields
+	ScalarFields map[string]string
 }
 
 type OptionView struct {
@@ -30,13 +32,19 @@ type OptionView struct {
 func BuildersViewOf(schemas ast.Schemas, builders ast.Builders) []BuilderView {
 	var out []BuilderView
 	for _, b := range builders {
-		bv := BuilderView{Pkg: b.Package, Name: b.Name, Object: b.For.Name, RefFields: map[string]string{}}
+		bv := BuilderView{Pkg: b.Package, Name: b.Name, Object: b.For.Name, RefFields: map[string]string{}, ScalarFields: map[string]string{}}
 		t := schemas.ResolveToType(b.For.Type)
 		if t.Kind == ast.KindStruct && t.Struct != nil {
 			for _, f := range t.Struct.Fields {
 				bv.Fields = append(bv.Fields, f.Name)
 				if f.Type.Kind == ast.KindRef && f.Type.Ref != nil && f.Type.Ref.ReferredPkg == b.Package {
 					bv.RefFields[f.Name] = f.Type.Ref.ReferredType
+				}
+				if f.Type.Kind == ast.KindScalar && f.Type.Scalar != nil && f.Type.Scalar.Value == nil && len(f.Type.Scalar.Constraints) == 0 && len(f.Type.Hints) == 0 {
+					switch f.Type.Scalar.ScalarKind {
+					case ast.KindString, ast.KindInt64, ast.KindBool, ast.KindFloat64:
+						bv.ScalarFields[f.Name] = string(f.Type.Scalar.ScalarKind)
+					}
 				}
 			}
 		}
@@ -159,13 +167,33 @@ func GenRuleSpec(r *Rand, bvs []BuilderView, pkg string, scope string, kind stri
 				rs.Path = Pick(r, b.Fields)
 			}
 			rs.Misconfigured = true
-			// a consistent configuration: the source builds the object found under the path
-			if len(b.RefFields) > 0 && r.Chance(2, 3) {
-				f := Pick(r, SortedKeys(b.RefFields))
-				for i := range bvs {
-					if bvs[i].Pkg == pkg && bvs[i].Object == b.RefFields[f] {
-						rs.SelA, rs.Source, rs.Path, rs.Misconfigured = b.Name, bvs[i].Name, f, false
+			// a consistent configuration: the source builds the object found under the
+			// path, which walks 1-4 reference fields deep (fieldConfig.defaults.custom)
+			if len(b.RefFields) > 0 && r.Chance(5, 6) {
+				find := func(obj string) *BuilderView {
+					for i := range bvs {
+						if bvs[i].Pkg == pkg && bvs[i].Object == obj && bvs[i].Name == obj {
+							return &bvs[i]
+						}
 					}
+					return nil
+				}
+				cur := b
+				var segs []string
+				depth := Pick(r, []int{1, 2, 3, 3, 3, 4, 5})
+				visited := map[string]bool{b.Object: true}
+				for len(segs) < depth && len(cur.RefFields) > 0 {
+					f := Pick(r, SortedKeys(cur.RefFields))
+					next := find(cur.RefFields[f])
+					if next == nil || visited[next.Object] {
+						break
+					}
+					visited[next.Object] = true
+					segs = append(segs, f)
+					cur = next
+				}
+				if len(segs) > 0 {
+					rs.SelA, rs.Source, rs.Path, rs.Misconfigured = b.Name, cur.Name, strings.Join(segs, "."), false
 				}
 			}
 			// a destination name that matches several builders case-insensitively
@@ -241,6 +269,15 @@ func GenRuleSpec(r *Rand, bvs []BuilderView, pkg string, scope string, kind stri
 			rs.Type = &TypeSpec{K: Pick(r, []string{"string", "int64", "bool"})}
 			rs.Method = Pick(r, []string{"direct", "direct", "append", "index"})
 			rs.Flag = r.Chance(1, 3) // constant instead of argument
+			if !rs.Flag {
+				// an argument of the type of the field it is assigned to
+				if len(b.ScalarFields) > 0 {
+					f := Pick(r, SortedKeys(b.ScalarFields))
+					rs.Path, rs.Type, rs.Method = f, &TypeSpec{K: b.ScalarFields[f]}, "direct"
+				} else {
+					rs.Flag = true
+				}
+			}
 			rs.Comments = maybeComments(r)
 		case "add_factory":
 			rs.As = Pick(r, []string{"Default", "WithPreset"})
